@@ -269,6 +269,56 @@ impl Trigger for SharedTrigger {
     }
 }
 
+
+/// multipliers and random-delay bounds near every numeric limit: no panic, next strictly after now
+/// (no boundary oracle: beyond the supported calendar "never" is the only sensible schedule)
+fn huge_values(zone: &str, acc: &mut Acc) {
+    let utc = |y, m, d, h, mi, s| chrono::Utc.with_ymd_and_hms(y, m, d, h, mi, s).unwrap().timestamp();
+    let nows = [utc(2024, 3, 5, 10, 15, 20), utc(2026, 10, 25, 0, 59, 30), utc(2024, 12, 31, 23, 59, 59)];
+    let ns: [i64; 16] = [
+        262_000, 300_000, 4_000_000, 14_000_000, 100_000_000, (1 << 31) - 1, 1 << 31, (1 << 32) - 1, 1 << 32, (1 << 32) + 1, 2_400_000_000,
+        150_000_000_000, 9_000_000_000_000, i64::MAX / 1000, i64::MAX - 1, i64::MAX,
+    ];
+    for ts in nows {
+        let now = match Local.timestamp_opt(ts, 0) {
+            chrono::LocalResult::Single(t) => t,
+            _ => continue,
+        };
+        for unit in UNITS {
+            for n in ns {
+                for modulate in [false, true] {
+                    acc.evals += 1;
+                    let case = json!({"tz": zone, "now_utc": ts, "unit": unit, "n": n, "modulate": modulate, "huge": true});
+                    match catch_panic(|| TimeTrigger::verif_next_time(now, interval(unit, n), modulate)) {
+                        Err(p) => acc.hit(format!("huge-multiplier:panic:{}", unit), format!("TZ={} now={} {} x{} modulate={}: {}", zone, now.to_rfc3339(), unit, n, modulate, p), case),
+                        Ok(next) if next <= now => acc.hit(format!("huge-multiplier:not-strictly-after-now:{}", unit), format!("TZ={} now={} {} x{} modulate={}: next={}", zone, now.to_rfc3339(), unit, n, modulate, next.to_rfc3339()), case),
+                        Ok(_) => {}
+                    }
+                }
+            }
+        }
+        // random-delay bounds through the public constructor under the driven clock
+        for delay in [1u64 << 32, 8_200_000_000_000, 9_300_000_000_000_000, i64::MAX as u64, (i64::MAX as u64) + 1, u64::MAX] {
+            for (unit, n) in [("second", 5i64), ("year", 1)] {
+                acc.evals += 1;
+                let case = json!({"tz": zone, "now_utc": ts, "unit": unit, "n": n, "max_random_delay": delay, "huge": true});
+                hooks::set_now(Some(now));
+                let r = catch_panic(|| {
+                    let cfg: TimeTriggerConfig = serde_yaml::from_str(&format!("interval: {} {}\nmax_random_delay: {}\n", n, unit, delay)).map_err(|e| e.to_string())?;
+                    let t = TimeTrigger::new(cfg);
+                    Ok::<_, String>(t.verif_next_roll_time())
+                });
+                match r {
+                    Err(p) => acc.hit("huge-random-delay:panic".to_string(), format!("TZ={} now={} {} x{} max_random_delay={}: {}", zone, now.to_rfc3339(), unit, n, delay, p), case),
+                    Ok(Err(_)) => {} // refused by the deserializer: an error, not a panic
+                    Ok(Ok(e)) if e <= now => acc.hit("huge-random-delay:not-strictly-after-now".to_string(), format!("TZ={} now={} scheduled {}", zone, now.to_rfc3339(), e.to_rfc3339()), case),
+                    Ok(Ok(_)) => {}
+                }
+            }
+        }
+    }
+}
+
 /// arrival sequences through the public appender path under the driven clock
 fn sequences(zone: &str, tier: Tier, trans: &[i64], acc: &mut Acc) {
     let starts: Vec<i64> = {
@@ -387,6 +437,7 @@ pub fn child(args: &[String]) -> i32 {
     let mut seq = Acc::default();
     sequences(&zone, tier, &trans, &mut seq);
     let seq_evals = seq.evals;
+    huge_values(&zone, &mut seq);
     let acc = acc.merge(seq);
     for (sig, (detail, case, count)) in &acc.found {
         println!("{}", json!({"kind": "violation", "sig": sig, "detail": detail, "case": case, "count": count}));
@@ -402,7 +453,7 @@ pub fn run(ctx: &Ctx) -> Report {
         "E-PROC x E-ENUM: one child per time zone (fixed offsets +5:30/+5:45, DST zones incl. a 30-minute DST, midnight transitions, a skipped day); per zone every second around every offset \
          transition 2010-2030, every minute of the transition days, calendar corners (leap day, year ends, ISO week 53) and a regular two-year grid, x 7 units x n in {1,2,3,5,7,12,24,60,100} x modulate; \
          always: no panic and next > now; where the offset does not change between now and next: next == the reference computed on naive local date-times. Plus every sequence of arrival classes \
-         {E-1s, E, E+1s, E+unit+1s} to the depth bound through the real appender under the driven clock (fires on the first arrival >= E, record on the right side, reschedules into the future). \
+         {E-1s, E, E+1s, E+unit+1s} to the depth bound through the real appender under the driven clock (fires on the first arrival >= E, record on the right side, reschedules into the future). Plus multipliers and random-delay bounds near every numeric limit (2^31, 2^32, chrono's range, i64::MAX, u64::MAX): no panic, next > now. \
          Non-trivial = evaluation where the boundary oracle applied",
     );
     let outs: Vec<_> = ZONES
@@ -470,7 +521,11 @@ pub fn child_one(args: &[String]) -> i32 {
         let unit = case["unit"].as_str().unwrap_or("");
         acc.found.retain(|k, _| k.contains(unit));
     } else {
-        sequences(&zone, Tier::Thorough, &trans, &mut acc);
+        if case["huge"] == true {
+            huge_values(&zone, &mut acc);
+        } else {
+            sequences(&zone, Tier::Thorough, &trans, &mut acc);
+        }
     }
     for (sig, (detail, case, count)) in &acc.found {
         println!("{}", json!({"kind": "violation", "sig": sig, "detail": detail, "case": case, "count": count}));
